@@ -10,6 +10,8 @@ EXTENDS Facto, FiniteSetsExt, SequencesExt, Json, IOUtils
 RECURSIVE Merges(_, _)
 Merges(s, t) == IF s = <<>> THEN {t} ELSE IF t = <<>> THEN {s}
                 ELSE {<<Head(s)>> \o m : m \in Merges(Tail(s), t)} \cup {<<Head(t)>> \o m : m \in Merges(s, Tail(t))}
+\* which program each statement of an interleaving came from (statements of P and Q are all distinct records)
+Owners(m, pp) == [i \in DOMAIN m |-> IF \E j \in DOMAIN pp : pp[j] = m[i] THEN "P" ELSE "Q"]
 Lamp(n, x, y) == SPlace(n, "small-lamp", Num(x), Num(y), <<>>)
 Ps == <<
   <<SIn("a", "signal-A", 5), SIn("b", "signal-B", 2), SLet("Signal", "r", Bin("+", Bin("*", Ref("a"), Ref("b")), Num(1)))>>,
@@ -31,11 +33,12 @@ FarProg(pre, row, d) == <<Chest(pre \o "a", 0, row), Chest(pre \o "b", 0, row + 
                           SProp(pre \o "l", "r", Sel(EOut(pre \o "b"), "copper-plate"))>>
 FarCins(pre) == <<[ent |-> pre \o "a", item |-> "iron-plate"], [ent |-> pre \o "b", item |-> "copper-plate"]>>
 FarRec(m, alone, side, d) == [grp |-> side, pi |-> 100 + d, qj |-> 0, stmts |-> m, src |-> Render(m), stmts2 |-> alone, src2 |-> Render(alone),
-                              dom |-> <<0, 1>>, cins |-> FarCins("p") \o FarCins("q")]
+                              dom |-> <<0, 1>>, cins |-> FarCins("p") \o FarCins("q"), owner |-> Owners(m, FarProg("p", 0, d))]
 \* a handful of interleavings (first / alternating / last) is enough here: the statements are the same kind
 FarMerges(pp, qq) == {pp \o qq, qq \o pp, <<pp[1], qq[1], pp[2], qq[2], pp[3], qq[3], pp[4], qq[4], pp[5], qq[5]>>, <<qq[1], qq[2], pp[1], pp[2], pp[3], qq[3], qq[4], pp[4], pp[5], qq[5]>>}
 FarAll == UNION {UNION {{FarRec(m, FarProg("p", 0, d), "P", d), FarRec(m, FarProg("q", 1, d), "Q", d)} : m \in FarMerges(FarProg("p", 0, d), FarProg("q", 1, d))} : d \in {14, 30}}
-Rec(m, alone, side, i, j) == [grp |-> side, pi |-> i, qj |-> j, stmts |-> m, src |-> Render(m), stmts2 |-> alone, src2 |-> Render(alone), dom |-> <<-3, 0, 2, 3, 4>>]
+Rec(m, alone, side, i, j) == [grp |-> side, pi |-> i, qj |-> j, stmts |-> m, src |-> Render(m), stmts2 |-> alone, src2 |-> Render(alone), dom |-> <<-3, 0, 2, 3, 4>>,
+                              owner |-> Owners(m, Ps[i])]
 All == UNION {UNION {{Rec(m, Ps[i], "P", i, j), Rec(m, Qs[j], "Q", i, j)} : m \in Merges(Ps[i], Qs[j])} : i \in DOMAIN Ps, j \in DOMAIN Qs}
 ASSUME PrintT(<<"NPROGS", Cardinality(All), Cardinality(FarAll)>>)
 ASSUME JsonSerialize(IOEnv.GEN_OUT, SetToSeq(All) \o SetToSeq(FarAll))
